@@ -115,6 +115,97 @@ def tricky_cases(ctx):
     return cases
 
 
+def tower_cases(ctx):
+    """chains nested in the last branch of chains and chains at every nesting level: the explored
+    maxima (nesting 12, chains of 60) taken together along ONE path, which a random program never does"""
+    rng = ctx.rng
+
+    def tower(k, n, where):
+        inner = 'return "leaf" weighted 1'
+        for _ in range(k):
+            parts = ['if x == 0 { return "a" weighted 1 }']
+            for i in range(1, n + 1):
+                body = inner if i == where(n) else 'return "b%d" weighted 1' % i
+                parts.append('else if x == %d { %s }' % (i, body))
+            inner = " ".join(parts)
+        return "def e { splitters: u " + inner + " }"
+
+    def nested(k, n):
+        # k nested ifs, a chain of n else-ifs hanging off each of them
+        inner = 'return "leaf" weighted 1'
+        for lvl in range(k):
+            chain = " ".join('else if y == %d { return "c%d" weighted 1 }' % (i, i) for i in range(1, n + 1))
+            inner = 'if x == 0 { %s } %s' % (inner, chain)
+        return "def e { splitters: u " + inner + " }"
+
+    shapes = [(2, 55), (2, 60), (3, 40), (rng.choice([4, 6, 8]), 60), (12, 60)] if ctx.tier == "thorough" else [(2, 55), (2, 60), (12, 20)]
+    cases = []
+    for k, n in shapes:
+        for where in (lambda n: n, lambda n: n // 2):
+            envs = [{"u": "u%d" % rng.randrange(99), "x": where(n)}, {"u": 1, "x": 0}, {"u": 1, "x": n + 5}]
+            cases.append({"prog": None, "text": tower(k, n, where), "envs": envs, "must_compile": True})
+    for k, n in ([(12, 60), (12, 5), (6, 30)] if ctx.tier == "thorough" else [(12, 5), (4, 30)]):
+        envs = [{"u": "u1", "x": 0, "y": 0}, {"u": "u1", "x": 1, "y": n}, {"u": "u1", "x": 0, "y": 1}]
+        cases.append({"prog": None, "text": nested(k, n), "envs": envs, "must_compile": True})
+    return cases
+
+
+def render_canon(toks):
+    """text of the model's canonical token rendering (Spec.tokensOfExperiment): every token as a lexeme,
+    one blank between tokens.  None when a token has no lexeme (a string holding both quote kinds or a
+    newline, a non-finite number) — such ASTs have no source text at all."""
+    import decimal
+    out = []
+    for kind, v in toks:
+        if kind in ("KW_ELIF", "KW_NOT_IN"):
+            out.append({"KW_ELIF": "else if", "KW_NOT_IN": "not in"}[kind])     # the token's value is not its lexeme
+        elif "r" in v:
+            out.append(v["r"])
+        elif "i" in v:
+            out.append(v["i"])
+        elif "s" in v:
+            t = v["s"]
+            if "\n" in t or ('"' in t and "'" in t):
+                return None
+            out.append(("'" + t + "'") if '"' in t else ('"' + t + '"'))
+        elif "f" in v:
+            f = v["f"]
+            if f in ("nan", "inf", "-inf"):
+                return None
+            m, e = (int(x) for x in f.split())
+            if m < 0:
+                return None
+            with decimal.localcontext() as c:
+                c.prec = 2000
+                d = decimal.Decimal(m) * (decimal.Decimal(2) ** e)
+                t = format(d, "f")
+            out.append(t if "." in t else t + ".0")
+        else:
+            return None
+    return " ".join(out)
+
+
+def canon_tie(ctx, records):
+    """C07_parse_complete_canonical ties the MODEL's parser to the canonical rendering of every well-formed
+    AST; this ties the real lexer+parser to the same rendering: the rendering of the AST of a compiled text
+    must compile, to the same AST."""
+    for rec in records:
+        m, im = rec["model"], rec["impl"]
+        if m is None or not m.get("canon") or im.get("compile") != "ok":
+            continue
+        text2 = render_canon(m["canon"])
+        if text2 is None:
+            ctx.count("canon:no-lexeme")
+            continue
+        ctx.count("canon:rendered")
+        im2 = common.impl_stages(text2, [])
+        if im2.get("compile") != "ok":
+            ctx.violation(f"the canonical (fully parenthesised) rendering of a compiled experiment does not compile ({im2['compile']}): {text2[:200]}",
+                          {"text": text2, "from": rec["case"]["text"], "impl_compile": im2["compile"]})
+        elif im2.get("ast") != im.get("ast"):
+            ctx.tie_break("canonical-rendering", {"text": text2, "from": rec["case"]["text"][:400]})
+
+
 def k1_cases(ctx):
     """finding family K1: identifiers that are Python reserved words / names the generated code uses"""
     cases = []
@@ -180,11 +271,12 @@ def run(ctx):
                          "single-letter names, fields shared between splitters and conditions, identifiers and tuples "
                          "inside tuples; type-compatible inputs derived from the literals; distinct = distinct source text; "
                          "non-trivial = compiled")
-    corpus = corpus_cases(ctx) + tricky_cases(ctx)
+    corpus = corpus_cases(ctx) + tricky_cases(ctx) + tower_cases(ctx)
     ctx.count("corpus-programs", len(corpus))
-    progcases.run_cases(ctx, corpus + make_cases(ctx, n, big=True))
+    records = progcases.run_cases(ctx, corpus + make_cases(ctx, n, big=True))
+    canon_tie(ctx, records)
     run_k1(ctx)
 
 
 def search(ctx):
-    progcases.run_cases(ctx, make_cases(ctx, 2000, big=True), check_model=False, want_stages=False)
+    progcases.run_cases(ctx, tower_cases(ctx) + make_cases(ctx, 2000, big=True), check_model=False, want_stages=False)
